@@ -10,22 +10,28 @@ CHECKS = {
         technique='runtime monitoring: identity oracle at the parse/encode boundary over table-driven and seeded workloads',
         category='exploration', design='DESIGN.md §4 C01',
         text='Every defined field/component/sub-component position of every version is round-tripped alone (exhaustive), '
-             'then seeded canonical multi-field segments and whole messages generated from the structure tables; the '
-             'monitor compares parse(text).to_er7() with text. Held-on-what-was-observed, not a proof.',
+             'then seeded canonical multi-field segments and whole messages generated from the structure tables (default and custom '
+             'delimiter sets, unknown structure names, Z and foreign segments, MSH-12 with components, plain punctuation and typed '
+             'boundary literals as leaf data); the monitor compares parse(text).to_er7() with text. Held-on-what-was-observed, '
+             'not a proof.',
         note='trusts tables.py row reader, er7ref canonicality predicate and the generators staying inside the canonical domain'),
     'C02': dict(
         technique='runtime monitoring: reference tokenizer over exhaustive table-row sweep',
         category='exploration', design='DESIGN.md §4 C02',
         text='All field rows (x2 levels), component rows and sub-component rows of all 12 versions are populated by name, '
              'encoded, tokenised by an independent tokenizer and parsed back; the finite table space is enumerated '
-             'completely, open-ended segments up to N indices.',
+             'completely, open-ended segments up to N indices (by name, parsed, and assigned as text), VARIES_n components of every '
+             'varies field, component gaps; every populated position is then re-assigned with an element that must be refused, '
+             'and another object of the same component name has its datatype overridden first.',
         note='trusts er7ref tokenizer and tables.py; witness literal per base datatype'),
     'C03': dict(
         technique='runtime monitoring: conservation check over unique-token messages (reference tokenizer on input and output)',
         category='exploration', design='DESIGN.md §4 C03',
         text='Messages made of in-structure, foreign, Z and repeated segment lines with fields/components beyond the defined '
              'counts are parsed with find_groups on and off; every leaf is a unique token, so any loss, duplication or '
-             'reordering of segments or leaves is attributed directly by comparing tokenised input and output.',
+             'reordering of segments or leaves, and any leaf changing place inside its field, is attributed directly by comparing '
+             'tokenised input and output; v2.7+ messages alternate with and without a truncation character; profiles that '
+             'truncate a segment must refuse or conserve the later fields.',
         note='trusts er7ref tokenizer; an HL7apyException counts as surfaced'),
     'C04': dict(
         technique='runtime monitoring: icontract post-condition on the real Validator.validate + mutation oracle over API-built conforming instances',
@@ -35,14 +41,18 @@ CHECKS = {
              'unknown element; at message, group, segment and field level) must be rejected with an error naming the element. A '
              'contract on Validator.validate checks on every call that encoding and shape are unchanged and is_valid <=> no errors; '
              'the harness compares the three calling forms (repeat, raising form = first error, report file = errors+warnings).',
-        note='instance builder is independent of parser and validator; choice/pseudo-segment structures skipped'),
+        note='instance builder is independent of parser and validator; structures holding a choice group or a pseudo segment '
+             'are judged differentially only (removing the only occurrence of a required child must add the matching error); '
+             'every instance carries a Z segment with version-specific base datatypes and runs under a far default version'),
     'C05': dict(
         technique='runtime monitoring: differential lock-step execution under STRICT and TOLERANT with validator cross-check',
         category='exploration', design='DESIGN.md §4 C05',
         text='Segments with valid/invalid/over-long literals of every base datatype, messages generated from the structure '
              'tables (with foreign and Z segments) and bounded API histories run under both levels; whenever STRICT accepts, '
              'TOLERANT must accept with the same encoding and validation report and the STRICT element must draw no validator '
-             'error but missing required children; direct probes check the STRICT refusals the statement lists.',
+             'error but missing required children; a walker checks every STRICT-accepted tree against the table maxima; direct '
+             'probes check the STRICT refusals the statement lists (incl. second children of base-datatype positions, non-ASCII '
+             'digits, over-long signed numerics, stale traversal handles, withdrawn fields).',
         note='reports compared as error/warning string lists'),
     'C06': dict(
         technique='runtime monitoring: icontract post-condition on the real TextualDataType.to_er7 + reference escaper over exhaustive string grids',
@@ -50,7 +60,9 @@ CHECKS = {
         text='Every string up to a length bound over {delimiters, escape, H E F L, ordinary chars} is encoded by the real '
              'textual classes under the default and seeded random delimiter sets; a contract on to_er7 and a boundary oracle '
              'check delimiter-safety, sequence membership of every escape char, idempotence, the fixed point on well-formed '
-             'text, and count preservation of datatype-object assignment inside messages.',
+             'text, and count preservation of datatype-object assignment inside messages and parentless segments; related sets '
+             '(roles exchanged, only FIELD / ESCAPE / TRUNCATION changed) follow each other in one process; report-sized leaves; '
+             'the textual leaf substituted for invalid non-textual values under TOLERANT.',
         note='trusts er7ref.well_formed/ref_escape; CR not in the alphabet'),
     'C07': dict(
         technique='runtime monitoring: reference tokenizer + descendant walk over seeded random delimiter sets (builder and parser paths)',
@@ -59,7 +71,9 @@ CHECKS = {
              '(2 repetitions x components x 2 sub-components) is built through Message(...) and parsed from text; the tokenizer '
              'run with that set must reproduce the shape, every separator must come from the set, MSH-1/2 must spell it, '
              'encoding_chars must read back equal on every descendant, re-parsing must give the same set and encoding, '
-             'truncation is emitted iff supplied, invalid sets must raise InvalidEncodingChars.',
+             'truncation is emitted iff supplied (also after a text declaring the other choice is assigned), invalid sets must raise '
+             'InvalidEncodingChars; unknown structure names, MSH-12 with components and a subtree prepared detached and then '
+             'added are governed by the message set too.',
         note='pool = punctuation minus . and _'),
     'C08': dict(
         technique='runtime monitoring: generator-prescribed group tree vs parsed tree, with soundness/flattening/equivalence/determinism monitors',
@@ -67,7 +81,8 @@ CHECKS = {
         text='Instances of every usable message structure (required-only, all-children, random, repeated groups) are emitted '
              'together with the group path of every line; parsing with find_groups must give declared children only, flatten to '
              'the input lines, encode like find_groups=False, be deterministic, and - for unambiguous instances - reproduce '
-             'exactly the prescribed tree and validate.',
+             'exactly the prescribed tree and validate; Z segments between the lines, a restating profile, and the same text '
+             'assigned to an unnamed / named Message must give the same tree; structure names are swept across versions in one process.',
         note='prescribed tree comes from the generator, not from a re-implementation of the search'),
     'C09': dict(
         technique='runtime monitoring: lock-step execution against an ordered-list reference model over operation histories',
@@ -75,7 +90,9 @@ CHECKS = {
         text='Histories of set/add/delete/remove/copy operations (by name, long name, position, index; from proxies and from '
              'elements of another parent) run on real segments, fields and messages of every version while a plain ordered-list '
              'model executes the same history; after every operation to_er7() must equal the model encoding. Exhaustive for short '
-             'histories over a reduced alphabet, seeded random up to length 30.',
+             'histories over a reduced alphabet, seeded random up to length 30; worlds with custom delimiters, open-ended segments, '
+             'children-view spellings (children[i] = x, children.insert), refused operations inside histories; group copies '
+             'between messages (custom delimiters, profiles, Z messages).',
         note='the model is the ordered-list semantics of the statement; operations are generated state-aware to be valid'),
     'C10': dict(
         technique='runtime monitoring: structural invariants I1-I6 asserted at a hook after every library call of random API histories',
@@ -83,7 +100,9 @@ CHECKS = {
         text='Random histories (valid edits, re-attachment, double add, own-repetition assignment, parent= construction, list-view '
              'deletions, shadow reads, value/children assignment, rejected calls) on segments, fields and messages of every '
              'version and both levels; after every call, successful or rejected, a walker asserts parent/lister agreement, '
-             'single listing, index/list agreement, view agreement, shadow-children separation and version/level uniformity.',
+             'single listing, index/list agreement, view agreement, shadow-children separation and version/level uniformity; '
+             'also parent setter / constructor attachment, datatype objects by name, children lists re-using or borrowing '
+             'children, trees built by the parser.',
         note='walker reads __dict__/children.list only'),
     'C11': dict(
         technique='runtime monitoring: deep-snapshot purity monitor around read chains and exact-materialisation check around the first write',
@@ -92,7 +111,9 @@ CHECKS = {
              'attribute access, len, repr, iteration, indexing, to_er7 and validate on segments and messages of every version; '
              'encoding, public children (with identities) and validation report must not change. A terminal write must create '
              'exactly the chain elements, once each, plus descendants of the last one, and the tokenizer must find the value at '
-             'the chain position and nothing else.',
+             'the chain position and nothing else; then delete, re-read, re-write, read back and write again through the same '
+             'spellings; open-ended segments (reads below and beyond the last field), Z segments reached by traversal, segments '
+             'moved into a message with other delimiters.',
         note='public children = children.list / indexes; tokenizer decides positions'),
     'C12': dict(
         technique='runtime monitoring: deep-snapshot comparison around every rejected library call (fault enumeration over reachable states)',
@@ -101,14 +122,17 @@ CHECKS = {
              'cardinality overflow, invalid value, absent deletions, datatype change on populated elements, foreign value text, '
              'children=[ok,bad], non-element) is injected at states reached by bounded histories; a guard snapshots all trees '
              'before each library call and, when it raises, requires equal snapshots and an unchanged parent pointer of the '
-             'offered child.',
+             'offered child; open-ended segments are separate targets (add, constructor, parent setter, children list, proxy '
+             'value, segment text), snapshots hold to_er7() with and without trailing children.',
         note='snapshot = encoding, classes, names, datatypes, leaf values, identity and order of listed children'),
     'C13': dict(
         technique='runtime monitoring: three-valued lexical-grammar oracle over exhaustive string / time / offset / calendar grids',
         category='exploration', design='DESIGN.md §4 C13',
         text='datatype_factory and SubComponent are driven with every string up to a bound over digits . + - blank e, full '
              'time-of-day, offset and calendar grids and over-long values, for every version and both levels; an independent '
-             'HL7 grammar decides membership, re-encoding is compared with the input text / number.',
+             'HL7 grammar decides membership, re-encoding is compared with the input text / number; a hostile shard repeats '
+             'edge values (29-45 significant digits, signed maxima, long invalid text) under default level STRICT and a '
+             'decimal context of precision 6.',
         note='trusts lexref; strings HL7 does not settle are not judged for acceptance'),
     'C14': dict(
         technique='runtime monitoring: object-identity oracle over an exhaustive sweep of spellings per table row',
@@ -116,7 +140,9 @@ CHECKS = {
         text='Every field row, component row and leaf sub-component row of every version is written through one spelling and '
              'read / deleted through all others (HL7 name and unique long name in lower, upper and mixed case; positional paths '
              'from the field); the element reached must be the same object. Names of other parents and indices beyond the '
-             'table must raise ChildNotFound/ChildNotValid and create nothing.',
+             'table must raise ChildNotFound/ChildNotValid and create nothing; with three repetitions every spelling lists the '
+             'children in the parent order; elements attached elsewhere are copied through every spelling; the same on fields '
+             'overridden to another datatype.',
         note='tables.py decides which long names are unique / usable'),
     'C15': dict(
         technique='runtime monitoring: exception-class monitor at the entry points under a seeded mutation fuzzer',
@@ -124,7 +150,9 @@ CHECKS = {
         text='Valid messages of all versions (generated from the structure tables) are mutated (truncation at every byte, '
              'delimiter edits, header surgery, garbled/Z segment names, CR/LF variants, junk) and fed to parse_message '
              '(both levels, find_groups on/off) and get_message_type; whatever parses must encode and validate to a report. '
-             'Leaks are keyed by (stage, exception type, innermost hl7apy function).',
+             'Leaks are keyed by (stage, exception type, innermost hl7apy function). Every field row of every segment is '
+             'populated once with a hostile shape and pushed through the same stages; the thorough tier adds a coverage-guided '
+             'atheris session.',
         note='allowed: result, HL7apyException subclass, ValueError under STRICT'),
     'C16': dict(
         technique='runtime monitoring: offline history checker over client-boundary and handler events, with socketpair chunk control and concurrent TCP stress',
@@ -134,14 +162,15 @@ CHECKS = {
              'loopback clients with distinct messages run under a 1 us switch interval with delays inside reply(); faults '
              '(no start block, close at every prefix, stall beyond the timeout, undecodable bytes, junk). Per connection the '
              'checker requires exactly one invocation of the right handler with the framed text, the client receiving exactly '
-             'that reply, then close; malformed input: no handler, close.',
+             'that reply (70 kB - 20 MB replies included), built with its registered extra arguments, then close; malformed input: '
+             'no handler, close; payloads with LF / CR LF, five-character MSH-2.',
         note='handlers are harness classes passed to MLLPServer; stall verdict is not time-based'),
     'C17': dict(
         technique='runtime monitoring: differential execution of an explicit-argument call corpus across default configurations',
         category='exploration', design='DESIGN.md §4 C17',
         text='About 3,000 parser / constructor / encoder / validator / factory calls that name version, level and encoding '
              'characters (all versions, both levels, datatypes whose base/complex status differs between versions) are run under '
-             'the baseline and under 12 default versions x 2 levels x 2 default delimiter sets; outcomes must be identical, and '
+             'the baseline and under 12 default versions x 2 levels x 3 default delimiter sets (one carrying TRUNCATION); outcomes must be identical, and '
              'elements created beforehand are re-observed after every change of the defaults. Consultations of the '
              'get_default_* bindings are counted as diagnostic evidence.',
         note='parentless to_er7() always receives explicit characters; text assignment on parentless elements is delimiter-free'),
@@ -151,8 +180,10 @@ CHECKS = {
         text='Profiles are synthesised from the standard structures by one edit (identity, tighten/require/forbid a child, swap a '
              'field datatype); the datatype and cardinality seen by elements created through parsing, traversal and add_*, and '
              'the validate() verdicts on standard-only / profile-only instances must follow the profile; identity changes nothing; '
-             'missing structure and legacy profile raise the stated exceptions; ITI-21 cardinalities are reported.',
-        note='edited children are top-level, uniquely named segments and their leaf fields'),
+             'missing structure and legacy profile raise the stated exceptions; ITI-21 cardinalities are reported; also a segment '
+             'inside a group limited to two, a minimum of two, text / proxy / whole-message assignment under default and custom '
+             'delimiters.',
+        note='edited children are top-level, uniquely named segments, their leaf fields, and repeatable segments inside top-level groups'),
     'C19': dict(
         technique='runtime monitoring: sequential-reference comparison under stress, sys.monitoring yield injection, enumerated baton schedules and cold-start schedules in fresh processes',
         category='exploration', design='DESIGN.md §4 C19',
@@ -160,7 +191,10 @@ CHECKS = {
              'under (a) 2-16 threads at a 1 us switch interval, (b) seeded yield injection at LINE events concentrated on the '
              'functions touching process-wide state, (c) a deterministic two-thread baton scheduler with every single hand-over at '
              'anchor events of warm calls, (d) fresh processes in which the first user of each version is pre-empted at the first '
-             'hit of each distinct anchor location (lazy imports, table construction, first lookups).',
+             'hit of each distinct anchor location (lazy imports, table construction, first lookups), followed by a datatype '
+             'override in one thread and a parse in another. Baton plans switch at the first and last visit of every distinct '
+             'anchor location and include two-switch schedules; anchors = functions touching module-level containers, globals or '
+             'class attributes.',
         note='line-granularity interleavings under the GIL; reference of cold schedules computed in the parent process'),
 }
 
